@@ -211,10 +211,10 @@ PROPS["C16"] = dict(
     title="Termination and bounded work",
     technique="bounded model checking (Kani/CBMC, SAT): unwinding assertions decide termination within N iterations for all inputs up to the bound; explicit yield counters",
     level_text="For all contents of tables up to the bound (cyclic/self-referential SysV chains, GNU chains without stop bit, version records with arbitrary next/aux offsets and declared counts up to 2^64-1, any starting offset) "
-               "every loop exits within the unwind bound derived from the byte length (unwinding assertions on), version iterators never yield more than their declared count nor more than one record per input byte.",
+               "every loop exits within the unwind bound derived from the byte length (unwinding assertions on), version iterators never yield more than their declared count nor more than one record per input byte; a single next() of each version-record iterator, from an arbitrary state (declared count 0..2 or >= 2^40, any start offset, any 0..24 bytes), completes within unwind bound 26 = bytes + 2 (a loop inside one step must advance with the input, not with the declared count).",
     level_note="Bound: areas of 16..48 bytes. The wall-clock clause (64 KiB within seconds) is a time measurement and outside this technique; it rests on the linear bounds shown here. Note/entry iterator bounds are in C14/C09. usize = 64 bit.",
     groups=[
-        K("core", ["c16::"], functions=["VerNeedIterator/VerNeedAuxIterator/VerDefIterator/VerDefAuxIterator::next", "SysVHashTable::find", "GnuHashTable::find"], bounds="version areas 16..26 bytes, count any, start any usize; SysV table <= 36 bytes, GNU table <= 48 bytes, all bytes symbolic", timeout_s=900),
+        K("core", ["c16::"], functions=["VerNeedIterator/VerNeedAuxIterator/VerDefIterator/VerDefAuxIterator::next", "SysVHashTable::find", "GnuHashTable::find"], bounds="version areas 16..26 bytes, count any, start any usize (whole iteration, unwind 8..12; one step, unwind 26); SysV table <= 36 bytes, GNU table <= 48 bytes, all bytes symbolic", timeout_s=900),
         K("core", ["c16t::"], tier="thorough", functions=["version iterators"], bounds="areas 32..40 bytes", timeout_s=3000),
     ],
     assumptions=[],
